@@ -764,3 +764,52 @@ impl Stream for WebSocketTransport {
         Poll::Pending
     }
 }
+
+/// Run the real [`WebSocketConnection::negotiate_connection`] (multistream-select, Noise
+/// handshake, dialed-peer comparison, yamux negotiation) over `stream` after the WebSocket
+/// upgrade the transport itself performs for the role, and report the authenticated peer
+/// (verification harness only; the module is compiled with the `websocket` feature only).
+#[cfg(litep2p_verif)]
+pub async fn verif_negotiate_connection(
+    stream: TcpStream,
+    dialed_peer: Option<crate::PeerId>,
+    keypair: crate::crypto::ed25519::Keypair,
+    role: crate::config::Role,
+    address: SocketAddr,
+    timeout: std::time::Duration,
+) -> Result<crate::PeerId, crate::error::NegotiationError> {
+    use crate::error::NegotiationError;
+
+    let multiaddr = Multiaddr::empty()
+        .with(Protocol::from(address.ip()))
+        .with(Protocol::Tcp(address.port()))
+        .with(Protocol::Ws(std::borrow::Cow::Borrowed("/")));
+    let stream = match role {
+        crate::config::Role::Dialer => {
+            let url = Url::parse(&format!("ws://{address}/")).expect("valid url");
+            tokio_tungstenite::client_async_tls(url, stream)
+                .await
+                .map_err(NegotiationError::WebSocket)?
+                .0
+        }
+        crate::config::Role::Listener =>
+            tokio_tungstenite::accept_async(MaybeTlsStream::Plain(stream))
+                .await
+                .map_err(NegotiationError::WebSocket)?,
+    };
+
+    WebSocketConnection::negotiate_connection(
+        stream,
+        dialed_peer,
+        role,
+        multiaddr,
+        ConnectionId::from(0usize),
+        keypair,
+        Default::default(),
+        crate::crypto::noise::MAX_READ_AHEAD_FACTOR,
+        crate::crypto::noise::MAX_WRITE_BUFFER_SIZE,
+        timeout,
+    )
+    .await
+    .map(|connection| connection.peer())
+}
